@@ -32,7 +32,7 @@ def run(fn, *a):
         return fn(*a)
     except TypeError as e:
         s = str(e)
-        return "AMBIGUOUS" if s.startswith("Ambiguous") else "NOMETHOD" if s.startswith("No method") else f"TypeError:{s[:60]}"
+        return "AMBIGUOUS" if __import__("_errs").amb(s) else "NOMETHOD" if __import__("_errs").nomethod(s) else f"TypeError:{s[:60]}"
     except Exception as e:
         return f"{type(e).__name__}:{str(e)[:60]}"
 
@@ -60,7 +60,7 @@ def _tail(th):
         return r if isinstance(r, list) else [r]
     except TypeError as e:
         s = str(e)
-        return ["AMBIGUOUS" if s.startswith("Ambiguous") else "NOMETHOD" if s.startswith("No method") else f"TypeError:{s[:60]}"]
+        return ["AMBIGUOUS" if __import__("_errs").amb(s) else "NOMETHOD" if __import__("_errs").nomethod(s) else f"TypeError:{s[:60]}"]
     except Exception as e:
         return [f"{type(e).__name__}:{str(e)[:60]}"]
 
@@ -72,7 +72,7 @@ def linear():
         try:
             return ["A"] + call_next(x)
         except TypeError as e:
-            return ["A", "NOMETHOD" if str(e).startswith("No method") else "AMBIGUOUS" if str(e).startswith("Ambiguous") else str(e)[:40]]
+            return ["A", "NOMETHOD" if __import__("_errs").nomethod(str(e)) else "AMBIGUOUS" if __import__("_errs").amb(str(e)) else str(e)[:40]]
 
     def fb(x: B):
         return ["B"] + call_next(x)
@@ -92,7 +92,7 @@ def diamond():
         try:
             return ["D"] + call_next(x)
         except TypeError as e:
-            return ["D", "AMBIGUOUS" if str(e).startswith("Ambiguous") else "NOMETHOD" if str(e).startswith("No method") else str(e)[:40]]
+            return ["D", "AMBIGUOUS" if __import__("_errs").amb(str(e)) else "NOMETHOD" if __import__("_errs").nomethod(str(e)) else str(e)[:40]]
 
     def fb(x: B):
         return ["B"]
@@ -184,7 +184,7 @@ def dependent_tied_top_rank(names=("c1", "c2", "c3", "c4")):
         o(L2(), L2())
         end = "returned"
     except TypeError as e:
-        end = "AMBIGUOUS" if str(e).startswith("Ambiguous") else "NOMETHOD"
+        end = "AMBIGUOUS" if __import__("_errs").amb(str(e)) else "NOMETHOD"
     except RecursionError:
         end = "RECURSION"
     return log + [end]
@@ -269,7 +269,7 @@ def nullary():
         try:
             return call_next()
         except TypeError as e:
-            return "NOMETHOD" if str(e).startswith("No method") else str(e)[:40]
+            return "NOMETHOD" if __import__("_errs").nomethod(str(e)) else str(e)[:40]
         except Exception as e:
             return f"{type(e).__name__}"
 
@@ -362,7 +362,7 @@ def walk_suite():
         except TypeError as e:
             s_ = str(e)
             # a call shape the remaining methods do not accept is rejected by the generated entry point itself
-            end = "AMBIGUOUS" if s_.startswith("Ambiguous") else "NOMETHOD"
+            end = "AMBIGUOUS" if __import__("_errs").amb(s_) else "NOMETHOD"
         except RecursionError:
             end = "RECURSION"
         except Exception as e:
@@ -438,7 +438,7 @@ def walk_suite():
             end = "returned"
         except TypeError as e:
             s_ = str(e)
-            end = "NOMETHOD" if s_.startswith("No method") else "AMBIGUOUS" if s_.startswith("Ambiguous") else f"TypeError:{s_[:40]}"
+            end = "NOMETHOD" if __import__("_errs").nomethod(s_) else "AMBIGUOUS" if __import__("_errs").amb(s_) else f"TypeError:{s_[:40]}"
         except RecursionError:
             end = "RECURSION"
         except Exception as e:
